@@ -10,16 +10,16 @@ namespace Fin
 open Tree Undo TextMark XmlDiffModel.Acc XmlDiffModel.Rej XmlDiffModel.Names XmlDiffModel.Along MapId JInv Chw
 
 /-- along the run of `run_E`: the maker state stays, every text stays a marked text, no element gets a wrapper tag -/
-theorem run_E_fin (bis : Dmp.Bisect) (qn : QName) (script : List Action) (s : FState) (h : FOK s) (inv : ROK s)
+theorem run_E_fin (w : Bool) (bis : Dmp.Bisect) (qn : QName) (script : List Action) (s : FState) (h : FOK s) (inv : ROK s)
     (T : Tree) (nx : Nat) (σ : Nat → Nat) (r : Rel σ T (acc (cln accS) s.tree) nx s.next) (HR HT HA : List Nat)
-    (J : JAll σ s.tree T HR HT HA) (fi : FInv s) (tg : AllP TagOK s.tree)
-    (hst : ∀ a ∈ script, NoComment a ∧ PlainNames a ∧ TextsOK a ∧ ShortTexts a ∧ ActTagsOK a)
+    (J : JAll w σ s.tree T HR HT HA) (fi : FInv s) (tg : AllP TagOK s.tree)
+    (hst : ∀ a ∈ script, NoComment a ∧ PlainNames a ∧ TextsOK a ∧ ShortTexts w a ∧ ActTagsOK a)
     (hpaths : PathsOK qn ⟨T, nx⟩ script)
     (nR : (HR ++ Once.targets Once.renSel qn ⟨T, nx⟩ script).Nodup)
     (nT : (HT ++ Once.targets Once.textSel qn ⟨T, nx⟩ script).Nodup)
     (nA : (HA ++ Once.targets Once.tailSel qn ⟨T, nx⟩ script).Nodup)
     (p' : PState) (hp : runUniq qn ⟨T, nx⟩ script = .ok p') (s' : FState)
-    (hrun : runFmtE false bis qn s script = .ok s') : FInv s' ∧ s'.ph = s.ph ∧ AllP TagOK s'.tree := by
+    (hrun : runFmtE w bis qn s script = .ok s') : FInv s' ∧ s'.ph = s.ph ∧ AllP TagOK s'.tree := by
   induction script generalizing s T nx σ HR HT HA with
   | nil =>
     simp only [runFmtE, Except.ok.injEq] at hrun
@@ -30,11 +30,11 @@ theorem run_E_fin (bis : Dmp.Bisect) (qn : QName) (script : List Action) (s : FS
     obtain ⟨hsa, hpm, hsr⟩ := hpaths
     obtain ⟨ha1, ha2, ha3, ha4, ha5⟩ := hst a (by simp)
     rw [targets_cons _ qn ⟨T, nx⟩ p1 a rest h1] at nR nT nA
-    obtain ⟨s1, σ1, e1, e2, e3, e4, _, e6⟩ := step_E bis qn s h inv T nx σ r HR HT HA J a ha1 hsa hpm ha2 ha3 ha4 p1 h1
+    obtain ⟨s1, σ1, e1, e2, e3, e4, _, e6⟩ := step_E w bis qn s h inv T nx σ r HR HT HA J a ha1 hsa hpm ha2 ha3 ha4 p1 h1
       (disjoint_of_nodup nR) (disjoint_of_nodup nT) (disjoint_of_nodup nA)
-    have hso := segsOK_feed bis qn s h T nx σ r HR HT HA J a hsa ha3 ha4 p1 h1 (disjoint_of_nodup nT)
+    have hso := segsOK_feed w bis qn s h T nx σ r HR HT HA J a hsa ha3 ha4 p1 h1 (disjoint_of_nodup nT)
       (disjoint_of_nodup nA) fi.segs
-    obtain ⟨sg, hfe⟩ := feed_eq bis qn s a
+    obtain ⟨sg, hfe⟩ := feed_eq w bis qn s a
     rw [hfe] at hso e1
     have fi0 : FInv { s with segs := sg } := ⟨fi.base, fi.marked, fi.norep, hso⟩
     obtain ⟨fi1, hph1⟩ := applyFmt_inv qn _ s1 a fi0 (actLow_of_textsOK a ha3) e1
@@ -64,19 +64,19 @@ patched document (ids renamed one-to-one) and the reject-all projection is the l
 (root tails aside). -/
 theorem differ_script_output (bis : Dmp.Bisect) (qn : QName) (cfg : Cfg) (L R : Tree) (M : List (Nat × Nat))
     (fresh : Nat) (script : List Action) (final : Tree) (ft : List Str) (w : Bool)
-    (hclean : CleanT L) (hshort : AllP ShortP L) (htag : AllP TagOK L) (hL : (ids L).Nodup) (hRn : (ids R).Nodup)
+    (hclean : CleanT L) (hshort : AllP (ShortP w) L) (htag : AllP TagOK L) (hL : (ids L).Nodup) (hRn : (ids R).Nodup)
     (hdisj : ∀ i ∈ ids L, i ∉ ids R)
     (hfL : ∀ i ∈ ids L, i < fresh) (hfR : ∀ i ∈ ids R, i < fresh) (hM : GoodMatching L R M)
-    (hR : ∀ x ∈ bfs R, (keys x.payload.attrs).Nodup ∧ XClean (fun k => isDiffKey k = false) x ∧ ShortP x.payload ∧
+    (hR : ∀ x ∈ bfs R, (keys x.payload.attrs).Nodup ∧ XClean (fun k => isDiffKey k = false) x ∧ ShortP w x.payload ∧
       TagOK x.payload)
     (h : scriptGen qn cfg L R M fresh = .ok (script, final)) :
-    ∃ s' σ out after, runFmtE false bis qn (fstate0 L fresh ft [] w) script = .ok s' ∧
+    ∃ s' σ out after, runFmtE w bis qn (fstate0 L fresh ft [] w) script = .ok s' ∧
       (∃ N, ∀ f, N ≤ f → undoElement f s'.ph diffElemList s'.tree = .ok (out, after)) ∧
       PlainT s'.ph out ∧ InjOn σ (ids final) ∧
       accFT out = setTailT none (mapId σ final) ∧ rejFT out = setTailT none (bare L) := by
   have hR' : ∀ x ∈ bfs R, (keys x.payload.attrs).Nodup ∧ XClean (fun k => isDiffKey k = false) x :=
     fun x hx => ⟨(hR x hx).1, (hR x hx).2.1⟩
-  have hsh := shortTexts_of_right qn cfg L R M fresh script final (fun x hx => ⟨(hR x hx).1, (hR x hx).2.2.1⟩) h
+  have hsh := shortTexts_of_right w qn cfg L R M fresh script final (fun x hx => ⟨(hR x hx).1, (hR x hx).2.2.1⟩) h
   have htg := actTagsOK_of_right qn cfg L R M fresh script final (fun x hx => ⟨(hR x hx).1, (hR x hx).2.2.2⟩) h
   obtain ⟨nx, hstrict⟩ := scriptGen_strict qn cfg L R M fresh script final hL hRn hdisj hfL hfR hM
     (fun x hx => (hR x hx).1) (fun x hx hk => by rw [(hR x hx).2.1.1] at hk; cases hk) h
@@ -101,14 +101,14 @@ theorem differ_script_output (bis : Dmp.Bisect) (qn : QName) (cfg : Cfg) (L R : 
     fresh script final hL hRn hfL hM hA h
   have o3 := Once.scriptGen_once Once.tailSel Once.goodSel_tail _ Once.isSome_tailSel Once.one_tail qn cfg L R
     M fresh script final hL hRn hfL hM hA h
-  have hst : ∀ a ∈ script, NoComment a ∧ PlainNames a ∧ TextsOK a ∧ ShortTexts a :=
+  have hst : ∀ a ∈ script, NoComment a ∧ PlainNames a ∧ TextsOK a ∧ ShortTexts w a :=
     fun a ha => ⟨(hacts a ha).1, hpn a ha, (hacts a ha).2.1, hsh a ha⟩
-  obtain ⟨s', σ, h1, r, _, h4⟩ := run_E bis qn script _ ⟨htok, hb, rfl⟩ hrok L fresh (fun x => x) r0 [] [] []
-    (jall_init L hclean hshort) hst hpaths (by simpa using o1) (by simpa using o2) (by simpa using o3) ⟨final, nx⟩ hrun
+  obtain ⟨s', σ, h1, r, _, h4⟩ := run_E w bis qn script _ ⟨htok, hb, rfl⟩ hrok L fresh (fun x => x) r0 [] [] []
+    (jall_init w L hclean hshort) hst hpaths (by simpa using o1) (by simpa using o2) (by simpa using o3) ⟨final, nx⟩ hrun
   have fi0 : TextMark.FInv (fstate0 L fresh ft [] w) :=
     TextMark.finv_init ft L fresh [] w (lowT_of_clean L hclean) (fun d hd => by cases hd)
-  obtain ⟨fi, _, tg⟩ := run_E_fin bis qn script _ ⟨htok, hb, rfl⟩ hrok L fresh (fun x => x) r0 [] [] []
-    (jall_init L hclean hshort) fi0 htag
+  obtain ⟨fi, _, tg⟩ := run_E_fin w bis qn script _ ⟨htok, hb, rfl⟩ hrok L fresh (fun x => x) r0 [] [] []
+    (jall_init w L hclean hshort) fi0 htag
     (fun a ha => ⟨(hst a ha).1, (hst a ha).2.1, (hst a ha).2.2.1, (hst a ha).2.2.2, htg a ha⟩) hpaths
     (by simpa using o1) (by simpa using o2) (by simpa using o3) ⟨final, nx⟩ hrun s' h1
   obtain ⟨out, after, hu, hpl, _, hfin⟩ := undoElement_fin s'.ph fi.base s'.tree fi.marked
